@@ -29,16 +29,47 @@ func checkC09(r *Run) {
 // ctxStores collects, per top-level function, the stores to the evaluator's
 // current-scope field.
 type ctxStore struct {
-	as       *ast.AssignStmt
+	as       ast.Node // the assignment (or, for a named restore helper, the defer statement)
 	rhs      ast.Expr
-	deferred *ast.DeferStmt // non-nil when inside `defer func(){...}()`
+	deferred *ast.DeferStmt // non-nil when inside `defer func(){...}()` or `defer restoreHelper(x)`
 	lit      *ast.FuncLit
+	helper   bool // restored through a named helper: the argument is evaluated at defer time
+}
+
+// restoreHelpers: functions whose whole body is `<x>.ctx = <parameter>`; a
+// `defer helper(v)` is the named form of `defer func() { x.ctx = v }()`.
+func (w *World) restoreHelpers() map[*types.Func]int {
+	out := map[*types.Func]int{}
+	ctxF := w.compilerField("ctx")
+	for _, f := range w.Funcs("") {
+		if len(f.Decl.Body.List) != 1 {
+			continue
+		}
+		as, ok := f.Decl.Body.List[0].(*ast.AssignStmt)
+		if !ok || len(as.Lhs) != 1 || len(as.Rhs) != 1 {
+			continue
+		}
+		if _, fld := fieldOf(f.Pkg.TypesInfo, as.Lhs[0]); fld == nil || fld != ctxF {
+			continue
+		}
+		sig := f.Obj.Type().(*types.Signature)
+		for i := 0; i < sig.Params().Len(); i++ {
+			if objOf(f.Pkg.TypesInfo, as.Rhs[0]) == sig.Params().At(i) {
+				out[f.Obj] = i
+			}
+		}
+	}
+	return out
 }
 
 func (w *World) ctxStoresOf(f *FuncInfo) []ctxStore {
 	info := f.Pkg.TypesInfo
 	ctxF := w.compilerField("ctx")
+	helpers := w.restoreHelpers()
 	var out []ctxStore
+	if _, isHelper := helpers[f.Obj]; isHelper {
+		return nil
+	}
 	var visit func(n ast.Node, d *ast.DeferStmt, lit *ast.FuncLit)
 	visit = func(n ast.Node, d *ast.DeferStmt, lit *ast.FuncLit) {
 		ast.Inspect(n, func(m ast.Node) bool {
@@ -46,6 +77,10 @@ func (w *World) ctxStoresOf(f *FuncInfo) []ctxStore {
 			case *ast.DeferStmt:
 				if fl, ok := x.Call.Fun.(*ast.FuncLit); ok {
 					visit(fl.Body, x, fl)
+					return false
+				}
+				if idx, ok := helpers[calleeOf(info, x.Call)]; ok && idx < len(x.Call.Args) {
+					out = append(out, ctxStore{x, x.Call.Args[idx], x, nil, true})
 					return false
 				}
 			case *ast.FuncLit:
@@ -60,7 +95,7 @@ func (w *World) ctxStoresOf(f *FuncInfo) []ctxStore {
 						if len(x.Rhs) == len(x.Lhs) {
 							rhs = x.Rhs[i]
 						}
-						out = append(out, ctxStore{x, rhs, d, lit})
+						out = append(out, ctxStore{x, rhs, d, lit, false})
 					}
 				}
 			}
@@ -115,9 +150,21 @@ func scopePairingRule(r *Run, rule string) {
 				continue
 			}
 			used[pair.deferred] = true
+			if pair.helper {
+				// defer restore(<field itself>): the argument is evaluated now, i.e. it IS the saved value
+				if _, fld := fieldOf(info, pair.rhs); fld == ctxF {
+					okInstall, how := installIsFresh(w, info, f, in.rhs, nil, ctxF)
+					if okInstall {
+						r.Ok(rule, f.Name(), con, w.Pos(in.as.Pos()), "old scope captured as the argument of a deferred restore helper; "+how)
+					} else {
+						r.Bad(rule, f.Name(), con, w.Pos(in.as.Pos()), "the installed scope must be a fresh child of the saved scope (<saved>.New()) or, in BlockWith, the context passed by the caller")
+					}
+					continue
+				}
+			}
 			// the restore closure: exactly one statement, restoring a local
 			saved := objOf(info, pair.rhs)
-			if len(pair.lit.Body.List) != 1 || saved == nil {
+			if (!pair.helper && len(pair.lit.Body.List) != 1) || saved == nil {
 				r.Bad(rule, f.Name(), "restore "+short(w.Fset, pair.as), w.Pos(pair.as.Pos()), "the deferred restore must assign the saved local back, and nothing else")
 				continue
 			}
@@ -141,6 +188,7 @@ func scopePairingRule(r *Run, rule string) {
 					if as.Pos() > pair.deferred.Pos() {
 						continue
 					}
+					_ = pair
 					var rhs ast.Expr
 					if len(as.Rhs) == len(as.Lhs) {
 						rhs = as.Rhs[i]
